@@ -76,6 +76,7 @@ def div (a b : Meas α) : CM α (Meas α) := do
 def pow (a : Meas α) (n : Int) : CM α (Meas α) := do
   let m ← Qty.pow a.measurand n
   if n == 0 then return mk' m (.int 0)
+  if n == 1 then return mk' m a.uncertainty
   let xp ← liftE (a.measurand.mag.powInt (n - 1))
   let inner := Mag.mul (.int n) (Mag.mul xp a.uncertainty)
   pure (mk' m inner.sq.sqrtF)
